@@ -499,6 +499,143 @@ def gen_broker(r):
     return conf
 
 
+# ---- unusual but valid text (round 11): what a str in a schedule's args / kwargs / labels may contain.  notes/C08.md "Round 10"
+# measured what the unchanged tree carries: everything below round-trips under ProxyFormatter with the JSON (the constructor's
+# default, hand-built, default=str) or the pickle serializer as long as a lone surrogate stands in a VALUE (not in a dict key);
+# JSONFormatter refuses lone surrogates loudly (pydantic's JSON writer) - brokers with that formatter get the other kinds only.
+# No high surrogate directly followed by a low one (Python's json joins the two escapes into one character - not taskiq's doing).
+TEXT = {
+    "lone surrogate": ["caf\udce9.csv", "r\udce9sum\udce9.txt", "/data/\udce9\udcff", "caf\u00e9 \ud83d", "\udc00\ud800", "\ud800", "\udbff",
+                       "\udfff", "\U0001F600\udc00", "\x00\udcff", "a\udc80b"],
+    "long with lone surrogates": ["ab\udce9" * 2500, "x" * 9000 + "\ud800"],
+    "non-BMP": ["\U00010000", "\U0010ffff", "\U0001F468\u200d\U0001F469", "a\U0001F600b", "\U000E0041"],
+    "BMP non-ASCII": ["caf\u00e9", "\u65e5\u672c", "\u042f\u0431", "\u0131\u0130", "e\u0301", "\ufb01", "\u0627\u0644"],
+    "control": ["\x00", "a\x00b", "\x01\x1f\x7f\x80\x9f", "\r\n\t", "\x1b[0m"],
+    "special BMP": ["\ufeff", "\ufffe\uffff", "\ufffd?", "\u2028\u2029", "\u200b\u202e", "\ud7ff\ue000", "\ufdd0"],
+    "escape look-alike": ["\\ud83d", "\\u0000", "\"}", "\\", "\\udce9"],
+    "long": ["x" * 20000, "\u00e9" * 7000, "\U0001F600" * 3000],
+}
+SURROGATE_KINDS = ["lone surrogate"] * 7 + ["long with lone surrogates"]
+TEXT_KEYS = ["caf\u00e9", "\u65e5\u672c", "\U0001F600", "k\x00", "\ufeffq"]      # keys: never a lone surrogate (refused as a key)
+
+
+def surrogates_ok(conf):
+    """does the unchanged tree send a str VALUE holding a lone surrogate through a broker configured like this"""
+    return (conf or {}).get("fmt", "default") != "json"
+
+
+def has_surrogate(s):
+    return any(0xD800 <= ord(ch) <= 0xDFFF for ch in s)
+
+
+def textify(r, holder, conf, places=("args", "args", "kwargs", "kwargs", "labels", "labels", "labels")):
+    """put one to three strings with unusual content into the args / kwargs / labels of `holder` (a scenario's payload, a
+    label-source entry, or a task - `places` = labels only): as a value of its own, inside a list / a dict value, next to other
+    text in one str, and ("sid" in places) as the schedule id; keys get non-ASCII / NUL text only, never a lone surrogate.
+    Returns [[kind, where], ...] for the evidence."""
+    ok = surrogates_ok(conf)
+    kinds = [k for k in TEXT if ok or "surrogate" not in k]
+    info = []
+    for _ in range(r.choice([1, 1, 2, 3])):
+        kind = r.choice(SURROGATE_KINDS) if ok and r.random() < .55 else r.choice(kinds)
+        s = r.choice(TEXT[kind])
+        if r.random() < .2 and not kind.startswith("long"):
+            s = r.choice(["/srv/in/", "x=", ""]) + s + r.choice([".csv", " ", ""])
+        where = r.choice(places)
+        v = s
+        if where in ("args", "kwargs") and r.random() < .4:
+            v = [r.randint(0, 3), s] if r.random() < .5 else {r.choice(["path", "name"]): s, "n": 1}
+            where += ", nested"
+        if where.startswith("args"):
+            a = holder.setdefault("args", [])
+            a.insert(r.randint(0, len(a)), v)
+        elif where.startswith("kwargs"):
+            key = r.choice(TEXT_KEYS) if r.random() < .15 else r.choice(["a", "b", "path", "name"])
+            holder.setdefault("kwargs", {})[key] = v
+            if key in TEXT_KEYS:
+                where += ", under a non-ASCII key"
+        elif where == "labels":
+            key = r.choice(TEXT_KEYS) if r.random() < .15 else r.choice(["q", "queue", "src_file", "x"])
+            if r.random() < .15:
+                v = {"__sub__": ["str", s]}          # the text held by an instance of a str SUBCLASS (travels as text, type ANY)
+                where += ", instance of a str subclass"
+            holder.setdefault("labels", {})[key] = v
+            if key in TEXT_KEYS:
+                where += ", under a non-ASCII key"
+        else:
+            holder["sid"] = s if len(s) < 200 else s[:40] + s[-3:]
+        info.append([kind, where])
+    return info
+
+
+def textify_fire(r, c, conf=None):
+    """an on_ready scenario (or the firing step of a history) whose schedule carries such text"""
+    conf = c.get("broker") if conf is None else conf
+    info = textify(r, c["payload"], conf)
+    if r.random() < .15:
+        info += textify(r, c, conf, places=("sid",))[:1]
+    c["text"] = c.get("text", []) + info
+    return c
+
+
+def textify_label(r, c):
+    """a label-source history whose entries (args / kwargs / labels) and tasks (labels) carry such text; enough firings right
+    after the first listing that the entries are sent"""
+    conf = c.get("broker")
+    info = []
+    tasks = c["globals"] + c["locals"]
+    ents = [e for t in tasks for e in (t["schedule"] or [])]
+    for e in r.sample(ents, min(len(ents), r.choice([1, 2, 2, 3]))):
+        info += textify(r, e, conf)
+    for t in tasks:
+        if r.random() < .3:
+            info += [[k, "task " + w] for k, w in textify(r, t, conf, places=("labels",))]
+    at = 1 + [i for i, op in enumerate(c["ops"]) if op[0] == "list"][0]
+    js = list(range(r.randint(2, 6)))
+    r.shuffle(js)
+    c["ops"][at:at] = [["fire", 0, j] for j in js]
+    if c["ops"][-1][0] != "list":
+        c["ops"].append(["list"])
+    c["text"] = info
+    return c
+
+
+def text_in(v):
+    """kinds of unusual text found in a case value (evidence only)"""
+    out = set()
+    if isinstance(v, str):
+        if has_surrogate(v):
+            out.add("lone surrogate")
+        elif any(ord(ch) > 0xFFFF for ch in v):
+            out.add("non-BMP")
+        elif any(ord(ch) > 127 for ch in v):
+            out.add("BMP non-ASCII")
+        if "\x00" in v:
+            out.add("NUL")
+        if len(v) >= 5000:
+            out.add("long")
+    elif isinstance(v, dict):
+        for k, x in v.items():
+            out |= text_in(k) | text_in(x)
+    elif isinstance(v, list):
+        for x in v:
+            out |= text_in(x)
+    return out
+
+
+def count_text(rep, fam, c, conf, sent_payloads):
+    """evidence distribution of the unusual text: sent_payloads = [args, kwargs, labels] of every schedule that reached kick()"""
+    for kind, where in c.get("text", []):
+        rep.count("%s:text kind=%s" % (fam, kind))
+        rep.count("%s:text in %s" % (fam, where))
+    if c.get("text"):
+        conf = conf or {}
+        rep.count("%s:schedules with unusual text, formatter=%s serializer=%s" % (fam, conf.get("fmt", "default"), conf.get("ser", "default")))
+    for p in sent_payloads:
+        for k in sorted(text_in(p)):
+            rep.count("%s:message with %s text reached kick()" % (fam, k))
+
+
 def is_rich(v):
     """does this case value hold a tagged (not JSON-native) value"""
     if isinstance(v, dict):
@@ -697,7 +834,7 @@ def vtype(v):
     if isinstance(v, dict) and len(v) == 1:
         k = next(iter(v))
         return {"__float__": "float", "__dec__": "Decimal", "__frac__": "Fraction", "__enum__": "enum member", "__bytes__": "bytes",
-                "__tuple__": "tuple", "__fset__": "frozenset"}.get(k, k)
+                "__tuple__": "tuple", "__fset__": "frozenset", "__sub__": "instance of a subclass of a primitive"}.get(k, k)
     return "None" if v is None else type(v).__name__
 
 
@@ -1010,6 +1147,11 @@ def explore(ctx, rep, cases, label):
             continue
         if c["type"] == "hist":
             count_hist(rep, c, o)
+            for st, x in zip(c["steps"], o["steps"]):
+                if st["do"] == "fire":
+                    p = st["payload"]
+                    count_text(rep, "hist", st, c["brokers"][st.get("on", 0) % len(c["brokers"])],
+                               [[p["args"], p["kwargs"], p["labels"], st["sid"]]] if any(e[0] == "kick" for e in x["effects"]) else [])
             bad, k = hist_oracle(c, o)
             if bad:
                 rep.fail("in a history of sends in one process: " + bad, c, observed=o["steps"][k],
@@ -1046,6 +1188,8 @@ def explore(ctx, rep, cases, label):
             p = c["payload"]
             count_payload(rep, "fire", c, [[p["args"], p["kwargs"]]], c.get("rich", []),
                           c["pre"] == "ok" and any(e[0] == "kick" for e in o["effects"]))
+            count_text(rep, "fire", c, c.get("broker"),
+                       [[p["args"], p["kwargs"], p["labels"], c["sid"]]] if any(e[0] == "kick" for e in o["effects"]) else [])
             bad = fire_oracle(c["pre"], c["kick_ok"], c["sid"], p["task"], o["sched_args"], o["sched_kwargs"],
                               o["expect_labels"], o["effects"], o.get("decl_labels"))
             if bad:
@@ -1065,6 +1209,9 @@ def explore(ctx, rep, cases, label):
             fired = [[x["sched"]["args"], x["sched"]["kwargs"]] for x in o["obs"] if x["op"] == "fire"]
             count_payload(rep, "label", c, fired, c.get("rich", []), any(x["op"] == "fire" and is_rich([x["sched"]["args"], x["sched"]["kwargs"]])
                                                           and any(e[0] == "kick" for e in x["effects"]) for x in o["obs"]))
+            count_text(rep, "label", c, c.get("broker"),
+                       [[x["sched"]["args"], x["sched"]["kwargs"], x["sched"]["labels"]] for x in o["obs"]
+                        if x["op"] == "fire" and any(e[0] == "kick" for e in x["effects"])])
             if any(is_rich(e.get("args", [])) or is_rich(e.get("kwargs", {})) for t in c["globals"] + c["locals"]
                    for e in (t["schedule"] or [])):
                 rep.count("label:history with entries whose args / kwargs are not JSON-native")
@@ -1096,6 +1243,24 @@ def explore(ctx, rep, cases, label):
     return broken
 
 
+def with_text(r, cases):
+    """unusual but valid text in the payloads / labels of a modest share of the stream (one on_ready scenario in 9, one label
+    history in 12, one history of sends in 5), drawn from a random stream of its own: every other case is what it was"""
+    for k, c in enumerate(cases):
+        if c["type"] == "fire" and k % 9 == 4:
+            textify_fire(r, c)
+        elif c["type"] == "label" and k % 12 == 7 and any(t["schedule"] for t in c["globals"] + c["locals"]):
+            textify_label(r, c)
+        elif c["type"] == "hist" and k % 5 == 2:
+            fires = [st for st in c["steps"] if st["do"] == "fire" and st.get("same_as") is None]
+            for st in r.sample(fires, min(len(fires), r.choice([1, 1, 2]))):
+                textify_fire(r, st, c["brokers"][st.get("on", 0) % len(c["brokers"])] or {})
+            for st in c["steps"]:           # a step that fires the ScheduledTask object of an earlier step again: that schedule
+                if st.get("same_as") is not None:
+                    st["payload"], st["sid"] = json.loads(json.dumps(c["steps"][st["same_as"]]["payload"])), c["steps"][st["same_as"]]["sid"]
+    return cases
+
+
 def spread(cases, extra):
     """`extra` put into `cases` at even distances (their Coq literals are the largest: they share the shards evenly)"""
     out, step = list(cases), max(1, len(cases) // (len(extra) + 1))
@@ -1116,18 +1281,20 @@ def run(ctx):
         explore(ctx, rep, corpus, "corpus")
     r = ctx.sub_rng("gen")
     cases = [gen_fire(r) for _ in range(ctx.n(600, 15000))] + [gen_label(r) for _ in range(ctx.n(900, 25000))]
+    rt = ctx.sub_rng("text")
+    cases = with_text(rt, cases)
     # histories of sends in one process with hash-equal label values of different types: a stream of their own (the cases above
     # are what they were), about a seventh of the whole
     selfcheck_pools()
     rh = ctx.sub_rng("hist")
-    cases += [gen_hist(rh) for _ in range(ctx.n(130, 4000))]
+    cases += with_text(rt, [gen_hist(rh) for _ in range(ctx.n(130, 4000))])
     cases = spread(cases, [poolify(rh, gen_label(rh)) for _ in range(ctx.n(100, 3000))])
     broken = explore(ctx, rep, cases, "main")
     if (broken or any(not o["ok"] for o in rep.obligations)) and not rep.failures:
         r2 = ctx.sub_rng("search")
-        explore(ctx, rep, [gen_fire(r2) for _ in range(ctx.n(2000, 20000))] + [gen_label(r2) for _ in range(ctx.n(3000, 40000))]
-                + [gen_hist(r2) for _ in range(ctx.n(400, 5000))] + [poolify(r2, gen_label(r2)) for _ in range(ctx.n(400, 5000))],
-                "search")
+        explore(ctx, rep, with_text(r2, [gen_fire(r2) for _ in range(ctx.n(2000, 20000))] + [gen_label(r2) for _ in range(ctx.n(3000, 40000))]
+                                    + [gen_hist(r2) for _ in range(ctx.n(400, 5000))])
+                + [poolify(r2, gen_label(r2)) for _ in range(ctx.n(400, 5000))], "search")
     return rep.finish()
 
 
